@@ -71,6 +71,11 @@ def programs(tier):
         {'tag': 'i', 'define': [['global', 'g', py('7')]], 'children': ['in', L(0)]}]}, P('g', 'g')), o3(0)))
     out.append(('several-globals-of-failed-element-stay', doc({'tag': 'a', 'onerror': fb, 'children': [
         {'tag': 'i', 'define': [['global', ['ga', 'gb'], py('(7, 8)')]], 'children': ['in', L(0)]}]}, P('ga', 'a'), P('gb', 'b')), o3(0)))
+    # tal:case and tal:on-error on one element: a matching case whose content fails still is the matching case
+    out.append(('case-and-on-error', doc({'tag': 'ul', 'switch': py('sv'), 'children': [
+        {'tag': 'li', 'case': py('1'), 'static': [['class', 'a']], 'onerror': fb, 'children': ['one', L(0)]},
+        {'tag': 'li', 'case': py('1'), 'onerror': fb2, 'children': ['again', L(1)]},
+        {'tag': 'li', 'case': py('default'), 'children': ['D']}]}), o3(0, 1) + [['sv', 'int', 2]]))
     out.append(('fallback-fails', doc({'tag': 'a', 'onerror': fb, 'children': [
         {'tag': 'b', 'onerror': ['text', py('L(1)')], 'children': [L(0)]}, 'after']}), o3(0, 1)))
     out.append(('content', doc({'tag': 'a', 'content': ['text', py('L(0)')], 'onerror': fb, 'children': ['x']}),
@@ -211,6 +216,9 @@ def plan(tier, seed):
         if label.startswith('nonstrict'):
             j.update({'handler': False, 'options': {'strict': False}})
         jobs.append(j)
+        if label in ('single', 'nested2', 'siblings'):
+            # the handler is an object that is callable and false (an empty error log)
+            jobs.append(dict(j, handler='falsy', label=label + ':falsy-handler'))
     for label, prog, vars_ in generated(24 if quick else 400, seed):
         jobs.append({'prog': prog, 'vars': vars_, 'label': label, 'handler': True, 'i18n': False})
     single = jobs[0]
